@@ -3,18 +3,21 @@ elementwise numpy operations only, so they are verified pointwise: the parameter
 as reals (any indexing/reduction on them would make the function UNDECIDED)."""
 from pyvc.contracts import contract, loop, inline
 
+# bounded stand-in sampling: moderate magnitudes, float tolerance for the real-arithmetic clauses
+_RP = {"no_fill": True, "real_range": 2.0, "rtol": 1e-9, "atol": 1e-9}
+
 _UNIT = "eqr(result[0] * result[0] + result[1] * result[1] + result[2] * result[2], 1)"
 
 contract("uxarray.grid.coordinates._lonlat_rad_to_xyz", props=["C04", "C16", "C05"],
          params={"lon": "real", "lat": "real"},
-         returns="tuple(real, real, real)",
+         returns="tuple(real, real, real)", replay=_RP,
          ensures=[_UNIT,
                   "eqr(result[0], cos(lon) * cos(lat)) and eqr(result[1], sin(lon) * cos(lat)) and eqr(result[2], sin(lat))"])
 
 contract("uxarray.grid.coordinates._normalize_xyz", props=["C04"],
          params={"x": "real", "y": "real", "z": "real"},
          requires=["x != 0 or y != 0 or z != 0"],
-         returns="tuple(real, real, real)",
+         returns="tuple(real, real, real)", replay=_RP,
          ensures=[_UNIT,
                   # direction preserved: result = v / |v| with |v| > 0
                   "eqr(result[0] * sqrt(x*x + y*y + z*z), x) and eqr(result[1] * sqrt(x*x + y*y + z*z), y) "
@@ -24,7 +27,7 @@ contract("uxarray.grid.coordinates._normalize_xyz", props=["C04"],
 contract("uxarray.grid.coordinates._normalize_xyz_scalar", props=["C04"],
          params={"x": "real", "y": "real", "z": "real"},
          requires=["x != 0 or y != 0 or z != 0"],
-         returns="tuple(real, real, real)",
+         returns="tuple(real, real, real)", replay=_RP,
          ensures=[_UNIT,
                   "eqr(result[0] * sqrt(x*x + y*y + z*z), x) and eqr(result[1] * sqrt(x*x + y*y + z*z), y) "
                   "and eqr(result[2] * sqrt(x*x + y*y + z*z), z)",
@@ -40,7 +43,7 @@ for _q in ("_xyz_to_lonlat_rad", "_xyz_to_lonlat_rad_scalar"):
     contract("uxarray.grid.coordinates." + _q, props=["C04"],
              params={"x": "real", "y": "real", "z": "real", "normalize": "True"},
              requires=["x != 0 or y != 0 or z != 0"],
-             returns="tuple(real, real)",
+             returns="tuple(real, real)", replay=_RP,
              ensures=["0 <= result[0] and result[0] < 2 * pi",
                       "-pi / 2 <= result[1] and result[1] <= pi / 2",
                       # away from the poles the result converts back to the same direction
@@ -51,7 +54,7 @@ for _q in ("_xyz_to_lonlat_rad", "_xyz_to_lonlat_rad_scalar"):
 contract("uxarray.grid.coordinates._xyz_to_lonlat_rad_no_norm", props=["C04"],
          params={"x": "real", "y": "real", "z": "real"},
          requires=["eqr(x*x + y*y + z*z, 1)"],
-         returns="tuple(real, real)",
+         returns="tuple(real, real)", replay=_RP,
          ensures=["0 <= result[0] and result[0] < 2 * pi",
                   "-pi / 2 <= result[1] and result[1] <= pi / 2",
                   f"implies(abs(z) <= {_TOL}, " + _RT.format(d="1") + ")",
@@ -62,7 +65,7 @@ _RTD = ("eqr(cos(deg2rad(result[0])) * cos(deg2rad(result[1])) * {d}, x) and "
 contract("uxarray.grid.coordinates._xyz_to_lonlat_deg", props=["C04", "C01"],
          params={"x": "real", "y": "real", "z": "real", "normalize": "True"},
          requires=["x != 0 or y != 0 or z != 0"],
-         returns="tuple(real, real)",
+         returns="tuple(real, real)", replay=_RP,
          ensures=["-180 <= result[0] and result[0] < 180",
                   "-90 <= result[1] and result[1] <= 90",
                   f"implies(abs(z) <= {_TOL} * {_D}, " + _RTD.format(d=_D) + ")",
